@@ -22,7 +22,7 @@ func scopeResultIndex(sig *types.Signature) (int, string) {
 
 func probeScopes(c *Ctx) {
 	for _, f := range c.Fns {
-		allInstrs(f, func(in ssa.Instruction) {
+		allInstrsIn(f, func(in ssa.Instruction) {
 			ci, ok := in.(ssa.CallInstruction)
 			if !ok {
 				return
